@@ -76,7 +76,8 @@ Crash2Violations ==
         ex   == Get(E, "examples", <<>>)
         pre  == "after-leftover:" \o E.what \o ":"
         w    == E.mut \o " after " \o E.variant
-    IN  IF E.saveerr \/ SaveOverLeftover(E.loaded, diff, E.new_bytes, IF E.snap_bytes >= 0 THEN E.snap_bytes ELSE E.new_bytes, E.tmp_left) /\ E.bytes_equal
+    IN  IF E.saveerr \/ (SaveOverLeftover(E.loaded, diff, E.new_bytes, IF E.snap_bytes >= 0 THEN E.snap_bytes ELSE E.new_bytes, E.tmp_left)
+                         /\ E.bytes_equal)
         THEN {}
         ELSE (IF E.loaded THEN {} ELSE {V("Inv_FileIsCompleteSnapshot", pre \o "load-failed", Get(E, "loaderr", ""))})
              \cup (IF E.loaded /\ ~ReloadEqual(E.loaded, diff)
